@@ -1,1 +1,44 @@
-(* C02 *) From PMC Require Import Spec.Lemmas.
+(* C02 — LTL model checking returns exactly the states all of whose paths satisfy g
+   (LTL/model_checking.py after fix F1; model Model/LTLmc.v).  Theorems only; the tableau
+   proof (closure/atom consistency, soundness through the generalised-Buechi lemma,
+   completeness by a choice-free pigeonhole over atom indices) is in Proofs/LTLP.v,
+   instantiated in Proofs/Assemble.v. *)
+From PMC Require Import Spec.Lemmas Proofs.Assemble.
+From PMC Require Proofs.LTLP Proofs.GraphP Proofs.SccP Proofs.InfPath.
+
+(* For EVERY well-formed total Kripke structure and EVERY LTL formula A g: the model
+   returns exactly the states s such that every infinite path from s satisfies g. *)
+Theorem C02_exact : forall K g, wf_kripke K -> ltl_path g = true ->
+  exists S, ltl_modelcheck K (FA g) = Ok S /\
+            forall s, In s S <-> (In s (states K) /\
+                                  forall p, is_path K p -> p 0 = s -> sat K p g).
+Proof. exact ltl_exact. Qed.
+Print Assumptions C02_exact.
+
+(* the tableau core: the E-path check returns exactly the states from which SOME path
+   satisfies a formula in restricted normal form *)
+Theorem C02_tableau : forall K p, wf_kripke K -> tableau_ok p = true -> PMC.Proofs.LTLP.normal p ->
+  forall s, In s (checkE_path K p) <->
+            In s (states K) /\ exists pi, is_path K pi /\ pi 0 = s /\ sat K pi p.
+Proof.
+  exact (PMC.Proofs.LTLP.checkE_path_spec PMC.Proofs.GraphP.reach_exact PMC.Proofs.GraphP.reversed_spec
+           PMC.Proofs.SccP.scc_correct PMC.Proofs.InfPath.gba).
+Qed.
+Print Assumptions C02_tableau.
+
+(* only formulas of the form A g with g quantifier-free are accepted *)
+Theorem C02_guard : forall K f, ltl_state f = false -> ltl_modelcheck K f = TypeErr.
+Proof.
+  intros K f H. destruct f; try reflexivity. simpl in H. simpl. rewrite H. reflexivity.
+Qed.
+Print Assumptions C02_guard.
+
+(* non-vacuity *)
+From Coq Require Import String.
+Example C02_example :
+  let K := mkK [(0, [0; 1]); (1, [2]); (2, [1])] [] [(0, ["p"]); (1, ["q"]); (2, [])]%string in
+  ltl_modelcheck K (FA (FG (FAtom "p")))%string = Ok [] /\
+  ltl_modelcheck K (FA (FU (FAtom "p") (FAtom "q")))%string = Ok [1] /\
+  ltl_modelcheck K (FA (FG (FF (FAtom "q"))))%string = Ok [1; 2] /\
+  ltl_modelcheck K (FA (FOr [FG (FAtom "p"); FF (FG (FImp (FAtom "q") (FX (FNot (FAtom "q")))))]))%string = Ok [0; 1; 2].
+Proof. vm_compute. repeat split. Qed.
